@@ -136,6 +136,11 @@ FIXED += [
   'regression of the previous fix, found by the next thorough sweep: a dangling link "c -> ./d/../mod" with "d -> ./sub/../a" (sub a regular file) and "a -> ../." was taken to lead out of the tree and Pack refused the tree'),
 ]
 
+FIXED += [
+ ("C06", "source", "fix: reject remote source URLs that cannot be written back",
+  'remote addresses whose host is an IPv6 literal with a non-ASCII zone ("https://[fe80::1%25é]/foo.tgz") were accepted and printed in a form that net/url refuses to read'),
+]
+
 OPEN = [
  # (property, key, what fails)
  ("C06", "edge-whitespace",
